@@ -478,6 +478,41 @@ Definition policy_of_config (mode_text : N) (lims : list N) : option policy :=
             (cfg_limit (nth 4 lims 0) default_max_signature_checks) (cfg_limit (nth 5 lims 0) default_max_ds_digests)
             (cfg_limit (nth 6 lims 0) default_max_nsec3_hashes) (cfg_limit (nth 7 lims 0) default_max_concurrent_crypto))
   end.
+(* config.RecursionFirewallConfig.Normalize, field by field: an omitted mode is shadow, an omitted limit its default
+   (the failure-cache fields likewise).  Proofs_ledger.gen_normalize: this IS the srcgen translation of the Go method. *)
+Definition name_off : list N := [111; 102; 102].
+Definition name_shadow : list N := [115; 104; 97; 100; 111; 119].
+Definition name_enforce : list N := [101; 110; 102; 111; 114; 99; 101].
+Definition norm_model (c : T_RecursionFirewallConfig) : T_RecursionFirewallConfig :=
+  mk_T_RecursionFirewallConfig
+    (match T_RecursionFirewallConfig_Mode c with [] => name_shadow | m => m end)
+    (cfg_limit (T_RecursionFirewallConfig_MaxOutboundQueries c) default_max_outbound)
+    (cfg_limit (T_RecursionFirewallConfig_MaxInternalQueries c) default_max_internal)
+    (cfg_limit (T_RecursionFirewallConfig_MaxDNSKEYCandidates c) default_max_dnskey_candidates)
+    (cfg_limit (T_RecursionFirewallConfig_MaxRRsetSignatureChecks c) default_max_rrset_signature_checks)
+    (cfg_limit (T_RecursionFirewallConfig_MaxSignatureChecks c) default_max_signature_checks)
+    (cfg_limit (T_RecursionFirewallConfig_MaxDSDigests c) default_max_ds_digests)
+    (cfg_limit (T_RecursionFirewallConfig_MaxNSEC3Hashes c) default_max_nsec3_hashes)
+    (cfg_limit (T_RecursionFirewallConfig_MaxConcurrentCrypto c) default_max_concurrent_crypto)
+    (if (T_RecursionFirewallConfig_FailureCacheSize c =? 0)%Z then default_failure_cache_size else T_RecursionFirewallConfig_FailureCacheSize c)
+    (if (T_Duration_Duration (T_RecursionFirewallConfig_FailureCacheMinTTL c) =? 0)%Z
+     then mk_T_Duration default_failure_cache_min_ttl else T_RecursionFirewallConfig_FailureCacheMinTTL c)
+    (if (T_Duration_Duration (T_RecursionFirewallConfig_FailureCacheMaxTTL c) =? 0)%Z
+     then mk_T_Duration default_failure_cache_max_ttl else T_RecursionFirewallConfig_FailureCacheMaxTTL c).
+
+(* the mode switch of MustRecursionWorkPolicyFromConfig (by hand: the function panics, which the translator refuses) *)
+Definition mode_of_name (m : list N) : N :=
+  if list_eq_dec N.eq_dec m name_off then mode_off
+  else if list_eq_dec N.eq_dec m name_enforce then mode_enforce else mode_shadow.
+Definition mode_text_name (t : N) : list N :=
+  if t =? 1 then name_off else if t =? 2 then name_shadow else if t =? 3 then name_enforce else [].
+Definition policy_of_normalized (c : T_RecursionFirewallConfig) : policy :=
+  mk_T_RecursionWorkPolicy (mode_of_name (T_RecursionFirewallConfig_Mode c))
+    (T_RecursionFirewallConfig_MaxOutboundQueries c) (T_RecursionFirewallConfig_MaxInternalQueries c)
+    (T_RecursionFirewallConfig_MaxDNSKEYCandidates c) (T_RecursionFirewallConfig_MaxRRsetSignatureChecks c)
+    (T_RecursionFirewallConfig_MaxSignatureChecks c) (T_RecursionFirewallConfig_MaxDSDigests c)
+    (T_RecursionFirewallConfig_MaxNSEC3Hashes c) (T_RecursionFirewallConfig_MaxConcurrentCrypto c).
+
 Definition policy_eqb (a b : policy) : bool :=
   (p_mode a =? p_mode b) && (p_max_out a =? p_max_out b) && (p_max_int a =? p_max_int b) && (p_max_key a =? p_max_key b) &&
   (p_max_rrsig a =? p_max_rrsig b) && (p_max_sig a =? p_max_sig b) && (p_max_ds a =? p_max_ds b) &&
